@@ -106,20 +106,42 @@ func genPipe(r *core.Rng) pipe {
 		src += ".measurement('m')"
 		p.hasName = true
 	}
-	switch r.Intn(3) {
+	switch r.Intn(4) {
 	case 0:
 		p.dims = []string{"t1"}
 		src += ".groupBy('t1')"
 	case 1:
 		p.dims = []string{"t1", "t2"}
 		src += ".groupBy('t1', 't2')"
-	default:
+	case 2:
 		p.star = true
 		src += ".groupBy(*)"
+	default:
+		// no tags: grouping by measurement only (or one single group)
+		p.dims = []string{}
 	}
-	if r.Chance(0.3) {
+	if r.Chance(0.3) || (len(p.dims) == 0 && !p.star && r.Chance(0.7)) {
 		p.byName = true
 		src += ".groupByMeasurement()"
+	}
+	// regroup right below the source: the last grouping is the effective one (grouping by
+	// measurement, once requested, stays on)
+	if r.Chance(0.25) {
+		switch r.Intn(3) {
+		case 0:
+			p.dims, p.star = []string{"t1"}, false
+			src += "|groupBy('t1')"
+		case 1:
+			p.dims, p.star = []string{"t2"}, false
+			src += "|groupBy('t2')"
+		default:
+			p.dims, p.star = nil, true
+			src += "|groupBy(*)"
+		}
+		if r.Chance(0.5) {
+			p.byName = true
+			src += ".byMeasurement()"
+		}
 	}
 	n := r.Range(1, 3)
 	var shape []string
@@ -206,6 +228,7 @@ func genInput(r *core.Rng, hostile bool) []inPoint {
 	type grp struct {
 		name string
 		tags map[string]string
+		ints bool // this group's f1 is an integer field
 	}
 	pool := []string{"a", "b", "c", "d"}
 	if hostile {
@@ -216,7 +239,7 @@ func genInput(r *core.Rng, hostile bool) []inPoint {
 	twoNames := r.Chance(0.4)
 	// hostile: seed the collision pairs deliberately in half of the runs
 	if hostile && r.Chance(0.5) {
-		gs = append(gs, grp{"m", map[string]string{"t1": "a,t2=b", "t2": "c"}}, grp{"m", map[string]string{"t1": "a", "t2": "b,t2=c"}})
+		gs = append(gs, grp{name: "m", tags: map[string]string{"t1": "a,t2=b", "t2": "c"}}, grp{name: "m", tags: map[string]string{"t1": "a", "t2": "b,t2=c"}})
 		seen["m|a,t2=b|c"], seen["m|a|b,t2=c"] = true, true
 	}
 	for len(gs) < ng {
@@ -233,6 +256,11 @@ func genInput(r *core.Rng, hostile bool) []inPoint {
 		}
 		seen[k] = true
 		gs = append(gs, g)
+	}
+	if r.Chance(0.4) {
+		for i := range gs {
+			gs[i].ints = r.Chance(0.5)
+		}
 	}
 	n := r.Range(60, 140)
 	mode := r.Intn(3)
@@ -260,6 +288,9 @@ func genInput(r *core.Rng, hostile bool) []inPoint {
 		}
 		tags["t3"] = r.Pick([]string{"u", "v"})
 		f := map[string]interface{}{"f1": float64(r.Intn(9)) / 4, "s1": r.Pick([]string{"x", "x", "y"})}
+		if g.ints {
+			f["f1"] = int64(r.Intn(9))
+		}
 		if r.Chance(0.05) {
 			delete(f, "f1")
 		}
